@@ -96,6 +96,14 @@ def check_lemma(case):
     p, sh = tuple(case["M"][0]), frozenset(tuple(c) for c in case["M"][1])
     extra = case.get("extra", 2)
     k = len(p)
+    # replayable mini-history: siblings sharing the shading (other underlying patterns) or the
+    # underlying pattern (one cell toggled) are queried first - verdicts must not leak between
+    # pattern objects through process-wide state
+    if k >= 1:
+        for q in [q for q in ref.perms(k) if q != p][:5]:
+            MeshPatt(Perm(q), sh).shadable_boxes()
+        for c in [(0, 0), (k, k)]:
+            MeshPatt(Perm(p), sh ^ {c}).shadable_boxes()
     M = MeshPatt(Perm(p), sh)
     max_t = k + extra
     licensed = 0
